@@ -1346,6 +1346,7 @@ int32_t jls_core_repair_fsr(struct jls_core_s * self, uint16_t signal_id) {
                  signal_info->track_fsr->data->data[0]);
         signal_info->track_fsr->data_length = signal_info->track_fsr->data->header.entry_count;
 
+        jls_raw_seek_end(self->raw);  // anything the summary writes must be appended
         if (!skip_summary && jls_core_fsr_summary1(signal_info->track_fsr, offset)) {
             JLS_LOGW("could not create summary - repair may not work");
         }
